@@ -544,6 +544,8 @@ impl AccessRaw for RawVector {
 
     #[inline]
     unsafe fn word_unchecked(&self, index: usize) -> u64 {
+        #[cfg(simple_sds_verif)]
+        crate::verif_hooks::access("RawVector::word_unchecked", index, self.data.len());
         *self.data.get_unchecked(index)
     }
 
@@ -977,6 +979,8 @@ impl<'a> AccessRaw for RawVectorMapper<'a> {
 
     #[inline]
     unsafe fn word_unchecked(&self, index: usize) -> u64 {
+        #[cfg(simple_sds_verif)]
+        crate::verif_hooks::access("RawVectorMapper::word_unchecked", index, self.data.len());
         *self.data.get_unchecked(index)
     }
 
